@@ -225,6 +225,11 @@ func walkLive(t *Term, f func(*Term)) {
 	}
 }
 
+// ctxLiveLoc: pseudo location read by `ctx.Err()` and written by every blocking call that is handed a context (the
+// consumer's SPI, consumer callbacks): the context may have been cancelled while the call ran, so "ctx.Err() == nil"
+// established before such a call says nothing after it.
+const ctxLiveLoc = "ctx:live"
+
 func (a *Analyzer) termReads(t *Term, out map[string]bool) {
 	walkLive(t, func(s *Term) {
 		switch s.Op {
@@ -237,6 +242,10 @@ func (a *Analyzer) termReads(t *Term, out map[string]bool) {
 				out["mem:"+s.Args[0].Key()] = true
 			}
 		case "call":
+			if s.Name == "context.Err" || s.Name == "context.Done" {
+				// whether a context is still live is not a stable fact: see ctxLiveLoc
+				out[ctxLiveLoc] = true
+			}
 			if i := strings.LastIndex(s.Name, "."); i >= 0 && strings.HasPrefix(s.Name, "interfaces.") {
 				for _, l := range storageReads[s.Name[i+1:]] {
 					out[l] = true
